@@ -20,6 +20,9 @@ type Step struct {
 	A   int    `json:"a,omitempty"`
 	B   int    `json:"b,omitempty"`
 	C   int    `json:"c,omitempty"`
+	// E is the edit op embedded in a "syncedit" step (the client edits while
+	// its sync request is in flight); A, B, C are that edit's parameters.
+	E string `json:"e,omitempty"`
 }
 
 func (s Step) String() string {
@@ -202,6 +205,11 @@ func Gen(o GenOpts) *rapid.Generator[Program] {
 		}
 		pool = append(pool, o.SchedOps...)
 		p.Steps = GenSteps(t, "steps", p.Cfg.N, pool, 1, o.MaxSteps)
+		for i := range p.Steps {
+			if s := &p.Steps[i]; s.Op == "syncedit" {
+				s.E = editOps[(s.A*5+s.B*3+s.C)%len(editOps)]
+			}
+		}
 		if o.OfflineBias && rapid.IntRange(0, 2).Draw(t, "offline") > 0 {
 			// Suppress the syncs of one client inside a window: the client
 			// stays offline for a long stretch while the others go on.
